@@ -283,6 +283,12 @@ class Bus:
             self.log.append((("?", "non-16-bit", (v,)), None))
             return None
         desc = R.decode16(v, type(cmd).devicetype)
+        if R.table_sendtwice(desc) and not cmd.sendtwice:
+            # a driver transmits a command twice only when cmd.sendtwice says so; control gear discards a configuration
+            # command that is not repeated within 100 ms (IEC 62386-102 9.3): nothing happens, nobody answers
+            self.log.append((desc, None))
+            self.sent_once_discarded = getattr(self, "sent_once_discarded", 0) + 1
+            return None
         answers = []
         for u in self.units:
             a = u.execute(desc)
@@ -333,3 +339,38 @@ def run_sequence(seq, bus, max_commands, fault=None):
         return ("return", e.value, n)
     except Exception as e:       # the sequence raised
         return ("raise", e, n)
+
+
+def run_interleaved(seqs, buses, max_commands, pattern=(1, 1)):
+    """Several generator sequences driven in turns (pattern[i] commands of sequence i, then the next one ...), each on its
+    own bus - two buses / drivers used by one application at the same time.  Returns [(kind, value, ncmds)] per sequence."""
+    from dali.command import Command
+    n = len(seqs)
+    state = [{"resp": None, "n": 0, "done": None} for _ in seqs]
+    turn = 0
+    while any(st["done"] is None for st in state):
+        i = turn % n
+        turn += 1
+        st = state[i]
+        if st["done"] is not None:
+            continue
+        budget = pattern[i % len(pattern)]
+        while budget > 0 and st["done"] is None:
+            try:
+                item = seqs[i].send(st["resp"])
+                st["resp"] = None
+                if isinstance(item, Command):
+                    if st["n"] >= max_commands:
+                        seqs[i].close()
+                        st["done"] = ("cap", None, st["n"])
+                        break
+                    fr = buses[i].execute(item)
+                    st["n"] += 1
+                    budget -= 1
+                    if item.response is not None:
+                        st["resp"] = item.response(fr)
+            except StopIteration as e:
+                st["done"] = ("return", e.value, st["n"])
+            except Exception as e:
+                st["done"] = ("raise", e, st["n"])
+    return [st["done"] for st in state]
